@@ -172,13 +172,20 @@ type c06SeqInput struct {
 	First  string `json:"first"`
 	Second string `json:"second"`
 	Stage  string `json:"stage"` // full stage text
+	// Pre: both records belong to one stream with the labels a="old", b="old" (fields of the first record that are
+	// named like them override them for that record only)
+	Pre bool `json:"pre,omitempty"`
 }
 
 func c06SeqCheck(r *vkit.Run, in c06SeqInput) bool {
 	r.Begin("C06/sequence", in)
 	q := "{} | " + in.Stage
-	both := evalLog([]mockq.Rec{{TS: 1 * sec, Line: in.First}, {TS: 2 * sec, Line: in.Second}}, logqlengine.QuerierCapabilities{}, q, -1)
-	alone := evalLog([]mockq.Rec{{TS: 2 * sec, Line: in.Second}}, logqlengine.QuerierCapabilities{}, q, -1)
+	var labels []mockq.KV
+	if in.Pre {
+		labels = []mockq.KV{{K: "a", V: "old"}, {K: "b", V: "old"}}
+	}
+	both := evalLog([]mockq.Rec{{TS: 1 * sec, Line: in.First, Labels: labels}, {TS: 2 * sec, Line: in.Second, Labels: labels}}, logqlengine.QuerierCapabilities{}, q, -1)
+	alone := evalLog([]mockq.Rec{{TS: 2 * sec, Line: in.Second, Labels: labels}}, logqlengine.QuerierCapabilities{}, q, -1)
 	r.Eval()
 	r.Eval()
 	r.Step(3)
@@ -498,7 +505,7 @@ func c06Run(r *vkit.Run) {
 	// sequences: a first record that leaves the stage in an odd state (malformed at some nesting depth, cut, empty,
 	// not of the format) followed by a well-formed one: the second comes out as it does alone
 	firsts := []string{`{"b":{"c":`, `{"b":[{"c":`, `{"a":{"b":{"c":1`, `{"b":[1,`, `{"b":[[1,2],[`, `{"a":"v","b":{"c":"w"}`, `{"a":"old","b":{"c":"old"},"x":`, "not json", "", `{`, `{"a":`,
-		`a="unterminated`, `a=1 b="x`, `{"_entry":"e","k":`, `[1,2`, `{"b":{"c":"keep"}}`, `a=first b=first`, `GET first`}
+		`a="unterminated`, `a=1 b="x`, `{"_entry":"e","k":`, `[1,2`, `{"b":{"c":"keep"}}`, `a=first b=first`, `GET first`, `{"a":"first","b":"first"}`, `{"_entry":"e","a":"first"}`}
 	seconds := []string{`{"a":"v","b":{"c":"w"}}`, `{"b":["s0",["s1"],"s2"]}`, `{"a":"v"}`, `{"b":{"c":{"d":"deep"}},"a":1}`, `a=v b=w`, `b=only`, `GET /x`, `{"_entry":"e2","k":"v"}`, `{}`, `x`}
 	seqStages := []string{`json`, `json a`, `json a, b`, `json x="b.c"`, `json x="b[1][0]"`, `json x="b[2]"`, `json x="b.c.d", y="a"`, `json y="a", x="b.c"`, `logfmt`, `logfmt a`, `logfmt x="b"`,
 		`regexp "(?P<m>\\w+) (?P<p>\\S+)"`, `pattern "<m> <p>"`, `unpack`}
@@ -512,6 +519,7 @@ func c06Run(r *vkit.Run) {
 				if c06SeqCheck(r, c06SeqInput{First: f, Second: sd, Stage: st}) {
 					r.NonTrivial()
 				}
+				c06SeqCheck(r, c06SeqInput{First: f, Second: sd, Stage: st, Pre: true})
 				r.State("seq" + st + f + sd)
 			}
 		}
@@ -523,7 +531,7 @@ func c06Run(r *vkit.Run) {
 			jp = append(jp, fmt.Sprintf("%q:%q", fmt.Sprintf("k%d", k), fmt.Sprintf("v%d", k)))
 			lp = append(lp, fmt.Sprintf("k%d=v%d", k, k))
 		}
-		jdoc := "{" + strings.Join(jp, ",") + `,"a":"last","b":{"c":"w"}}`
+		jdoc := "{" + strings.Join(jp, ",") + `,"a":"last","b":{"c":"w"},"2xx.count":"n","x.y-z":"d"}`
 		ldoc := strings.Join(lp, " ") + " a=last b=w"
 		for _, st := range []string{"json", "json a", `json x="b.c"`, fmt.Sprintf("json k%d, a", nf-1)} {
 			visit(c06Input{Line: jdoc, Pre: true, Stage: st, Kind: "wellformed", Parser: "json"})
@@ -575,6 +583,14 @@ func c06Run(r *vkit.Run) {
 	}
 	// regexp: named captures over delimiter-separated words
 	words := []string{"GET", "x1", "é", ""}
+	// patterns that begin with a literal, matched away from the start of the line
+	for _, pat := range []string{`x1 (?P<b>\w*)`, `ET (?P<z>\S+)`, `=(?P<a>\w)`} {
+		for _, line := range []string{"GET x1 é", "x1 GET", "k=v x1 w", "no match here", "  x1 y", "GET ET tail"} {
+			for _, pre := range []bool{false, true} {
+				visit(c06Input{Line: line, Pre: pre, Stage: pat, Kind: "wellformed", Parser: "regexp"})
+			}
+		}
+	}
 	for _, pat := range []string{`(?P<a>\w+) (?P<b>\w+)`, `^(?P<a>[^ ]*) (?P<z>[^ ]*)$`, `(?P<a>\w+)`, `(\w+) (?P<b>\w+)`, `^(\w+)( (?P<b>\w+))?`, `(?P<a>G)|(?P<b>x)`, `(\w)(\w)(?P<b>\w)`} {
 		for _, w1 := range words {
 			for _, w2 := range words {
@@ -622,7 +638,7 @@ func c06Run(r *vkit.Run) {
 		}
 	}
 	visit(c06Input{Line: "not json", Stage: "unpack", Kind: "prefix", Parser: "unpack"})
-	r.Note("bounds", fmt.Sprintf("JSON: %d documents (<=%d fields over keys {a,b,a.b,'x y'} x 20 values incl. escapes, numbers (also integers beyond 2^53), booleans, null, nested; duplicate keys; two whitespace styles) x 8 json forms x with/without pre-existing labels, every strict prefix of a subset; path expressions: every nested document of depth <= 2 (arrays of <= 3, objects of <= 2; thorough: depth 3 over the small subtrees) with distinct leaves x every leaf path, every ordered pair of leaf paths in one stage, every inner path and every path one past the end; logfmt: %d records x 4 forms + 7 malformed; regexp: 4 patterns x 16 lines; pattern: 6 patterns x 81 value pairs; unpack: 30 packed entries and all their strict prefixes; sequences: 18 first records (malformed at several depths, cut, empty, other format) x 10 second records x 14 stages, the second record compared with its evaluation alone", len(docs), maxFields, len(lfDocs)))
+	r.Note("bounds", fmt.Sprintf("JSON: %d documents (<=%d fields over keys {a,b,a.b,'x y'} x 20 values incl. escapes, numbers (also integers beyond 2^53), booleans, null, nested; duplicate keys; two whitespace styles) x 8 json forms x with/without pre-existing labels, every strict prefix of a subset; path expressions: every nested document of depth <= 2 (arrays of <= 3, objects of <= 2; thorough: depth 3 over the small subtrees) with distinct leaves x every leaf path, every ordered pair of leaf paths in one stage, every inner path and every path one past the end; logfmt: %d records x 4 forms + 7 malformed; regexp: 10 patterns x up to 16 lines; pattern: 6 patterns x 81 value pairs; unpack: 30 packed entries and all their strict prefixes; sequences: 20 first records (malformed at several depths, cut, empty, other format) x 10 second records x 14 stages, the second record compared with its evaluation alone", len(docs), maxFields, len(lfDocs)))
 }
 
 func c06Replay(r *vkit.Run, v vkit.Violation) *vkit.Violation {
